@@ -268,6 +268,51 @@ Theorem c06_stable_plen_ok_g_partial_SM : SMH ->
     c06_stable_plen_ok_g cfg (ftrace cci s0 ops) = true.
 Proof. intro H. apply c06_stable_plen_ok_g_partial. apply SMH_TSH. exact H. Qed.
 
+(* ---- unconditional: within one poll (map reset at every poll) ---- *)
+Theorem c06_stable_plen_poll_poll : forall cfg (s : vsock) sc,
+  LB 0 s -> v_emsg_limit s = None -> script_legit sc = true ->
+  c06_stable_plen_poll cfg (fstep_of cci s (VoPoll sc)) = true.
+Proof.
+  intros cfg s sc HL Hl Hs. unfold c06_stable_plen_poll.
+  destruct (poll cci (VSockRec.set_sends s sc)) as [s' r] eqn:E.
+  rewrite (fstep_of_poll cci s sc s' r E). cbn [fs_post].
+  destruct (tol_ok (fp_of_vsock cci s')) eqn:Et'; [|reflexivity].
+  match goal with |- fst (stable_step [] ?x) = true => set (st := x) end.
+  assert (HL0 : LB 0 (VSockRec.set_sends s sc)) by (eapply LB_kp; [exact HL|]; unfold kp; auto).
+  assert (HE : EF (VSockRec.set_sends s sc)) by (split; [exact Hs | exact Hl]).
+  pose proof (poll_LB cci _ HL0) as HL'. rewrite E in HL'. cbn [fst] in HL'.
+  pose proof (poll_OUT_DM_strict_all cci _ _ _ HL0 HE E) as HO.
+  assert (Hpk : forall p, In p (map fpacket_of (rev (v_out s'))) -> fq_is_data p = true ->
+     exists g, fseg_of_seq (fp_of_vsock cci s') (ch_seq (fq_hdr p)) = Some g /\ fg_size g = fq_plen p).
+  { destruct r; try (apply OUT_named; [apply HL' | apply HO | exact Et']).
+    rewrite HO. cbn [rev map]. intros p []. }
+  assert (Hnil : MW [] (fs_post st)) by (intros q pl pr g Ha; discriminate).
+  destruct (stable_step_MW st sc r _ _ _ eq_refl eq_refl Hpk [] Hnil) as [K1 _]. exact K1.
+Qed.
+
+Theorem c06_stable_plen_poll_other : forall cfg (s : vsock) o,
+  (forall sc, o <> VoPoll sc) -> c06_stable_plen_poll cfg (fstep_of cci s o) = true.
+Proof.
+  intros cfg s o Hnp. unfold c06_stable_plen_poll. destruct (tol_ok _); [|reflexivity].
+  unfold stable_step. rewrite fstep_of_event.
+  destruct o; try reflexivity. exfalso. eapply Hnp. reflexivity.
+Qed.
+
+Theorem c06_stable_plen_ok_p_trace : forall cfg mk c (s0 : vsock) ops,
+  vconfig_ok c = true -> vsock_new cci mk c = Some s0 ->
+  c06_stable_plen_ok_p cfg (ftrace cci s0 ops) = true.
+Proof.
+  intros cfg mk c s0 ops Hc H0. unfold c06_stable_plen_ok_p.
+  assert (Hl : v_emsg_limit s0 = None).
+  { unfold vsock_new in H0.
+    destruct (match (if vc_incoming c then None else _) with Some r => _ | None => _ end); [|discriminate].
+    inversion H0; subst. reflexivity. }
+  rewrite <- Hl. apply noemsg_scan_ok.
+  - apply c06_stable_plen_poll_other.
+  - apply c06_stable_plen_poll_poll.
+  - eapply vsock_new_LB; eassumption.
+Qed.
+
 End WithCC.
 
 Print Assumptions c06_stable_plen_ok_g_partial.
@@ -292,6 +337,19 @@ Lemma stable_plen_g_nonvacuous :
     forallb (fun q => q =? 101) (data_seqs (wtrace w cfg ops)) = true /\
     c06_stable_plen_ok_g cfg (wtrace w cfg ops) = true /\
     c06_stable_plen_ok cfg (wtrace w cfg ops) = true.
+Proof.
+  exists 1000, nv_cfg, nv_rto_ops.
+  split; [vm_compute; reflexivity|]. split; [repeat constructor|].
+  repeat split; vm_compute; reflexivity.
+Qed.
+
+(* the per-poll form on the same scenario: every poll meets its guard, data goes out in six of them *)
+Lemma stable_plen_p_nonvacuous :
+  exists w cfg ops,
+    vconfig_ok cfg = true /\ Forall op_msg_ok ops /\
+    forallb (fun st => poll_noemsg None st && tol_ok (fs_post st)) (wtrace w cfg ops) = true /\
+    (6 <=? Z.of_nat (length (data_seqs (wtrace w cfg ops)))) = true /\
+    c06_stable_plen_ok_p cfg (wtrace w cfg ops) = true.
 Proof.
   exists 1000, nv_cfg, nv_rto_ops.
   split; [vm_compute; reflexivity|]. split; [repeat constructor|].
